@@ -30,6 +30,23 @@ theorem main_line_le_4096 (f : LenFacts) (ht : f.tsDigits ≤ 10) (count entries
     lineLen f 15 (gobMap count entries) ≤ 4096 :=
   Oidc.Codec.main_line_le_4096 f ht count entries em inc hc hem hinc he
 
+/-- **any content** (fix F17): a cookie is emitted only when its encoded value is within the ceiling the codecs are given in
+    `NewSessionManager` (regenerated fact `cookieValueCeiling`; securecookie's `Encode` fails otherwise and `Save` writes nothing for
+    it); with the name (≤ 22 bytes), `=` and the attributes (≤ 94 bytes) the line stays within 4096 bytes whatever the session
+    holds — an e-mail claim or a token of any length and content included.  No hypothesis on the payload. -/
+theorem every_emitted_line_le_4096 (f : LenFacts) (ceiling nameLen gob : Nat) (hpos : 0 < ceiling) (hc : ceiling + 117 ≤ 4096)
+    (hname : nameLen ≤ 22) (h : fits ceiling f gob = true) : lineLen f nameLen gob ≤ 4096 :=
+  Oidc.Codec.line_le_of_fits f ceiling nameLen gob hpos hc hname h
+
+/-- within the domain the handler produces the ceiling is never reached, so no `Save` fails for length: chunks and whole tokens
+    of at most 2000 bytes, the main cookie with e-mail ≤ 320 and remembered URI ≤ 1024 bytes -/
+theorem saves_fit (f : LenFacts) (ht : f.tsDigits ≤ 10) (ceiling : Nat) (hc : 3810 ≤ ceiling) :
+    (∀ n, n ≤ 2000 → fits ceiling f (chunkGob n) = true) ∧ (∀ n, n ≤ 2000 → fits ceiling f (wholeGob n) = true) ∧
+    (∀ count entries em inc, count < 128 → em ≤ 320 → inc ≤ 1024 → entries ≤ mainEntries em inc →
+      fits ceiling f (gobMap count entries) = true) :=
+  ⟨fun n hn => Oidc.Codec.chunk_fits f ht ceiling n hc hn, fun n hn => Oidc.Codec.whole_fits f ht ceiling n hc hn,
+   fun count entries em inc h1 h2 h3 h4 => Oidc.Codec.main_fits f ht ceiling count entries em inc hc h1 h2 h3 h4⟩
+
 /-- the attribute text of every line that sets a cookie (the model the correspondence runs compare, byte for byte, with every
     line the implementation emits): Path=/, Max-Age = the session lifetime, HttpOnly, Secure when required, SameSite=Lax — and
     nothing else (no Domain) -/
@@ -63,6 +80,23 @@ def GoodCookies : Prop :=
 instance : Decidable GoodCookies := by unfold GoodCookies; infer_instance
 theorem facts_ok : GoodCookies := by decide
 
+/-- obligation against the regenerated facts: the ceiling on the encoded value leaves room for name and attributes, and is
+    above what the handler's own cookies need -/
+def GoodCeiling : Prop := 0 < Oidc.Generated.cookieValueCeiling ∧ Oidc.Generated.cookieValueCeiling + 117 ≤ 4096 ∧ 3810 ≤ Oidc.Generated.cookieValueCeiling
+instance : Decidable GoodCeiling := by unfold GoodCeiling; infer_instance
+theorem ceiling_ok : GoodCeiling := by decide
+
+/-- for the code as it is: whatever a session holds, a line that is emitted is at most 4096 bytes long -/
+theorem current_every_line_le_4096 (f : LenFacts) (nameLen gob : Nat) (hname : nameLen ≤ 22)
+    (h : fits Oidc.Generated.cookieValueCeiling f gob = true) : lineLen f nameLen gob ≤ 4096 :=
+  every_emitted_line_le_4096 f _ nameLen gob ceiling_ok.1 ceiling_ok.2.1 hname h
+
+/-- a session that is emitted and one that is not (premises satisfiable both ways): a three-field main cookie with a
+    100-character and with a 2 100-character e-mail -/
+example : fits Oidc.Generated.cookieValueCeiling ⟨true, true, 10⟩ (gobMap 3 ((ifaceStr 13 + ifaceBool) + (ifaceStr 10 + ifaceInt 5) + (ifaceStr 5 + ifaceStr 100))) = true ∧
+    fits Oidc.Generated.cookieValueCeiling ⟨true, true, 10⟩ (gobMap 3 ((ifaceStr 13 + ifaceBool) + (ifaceStr 10 + ifaceInt 5) + (ifaceStr 5 + ifaceStr 2100))) = false := by
+  decide
+
 /-- for the code as it is: chunk and token cookies of the current chunk size fit, encrypted, with `Secure`, ten-digit timestamp -/
 theorem current_chunk_fits (n nameLen : Nat) (hn : n ≤ Oidc.Current.maxSz) (hname : nameLen ≤ 22) (secure : Bool) :
     lineLen ⟨Oidc.Current.cookiesEncrypted, secure, 10⟩ nameLen (chunkGob n) ≤ 4096 :=
@@ -76,6 +110,7 @@ example : lineLen ⟨true, true, 10⟩ 17 (chunkGob 3000) > 4096 := by decide
 
 /-! obligations against the regenerated program text of session.go: the functions these theorems rest on read, statement for
     statement, as they did when the session model was written after them (`Oidc/Shapes.lean`) -/
+theorem text_NewSessionManager_ok : Oidc.Shapes.Text_NewSessionManager := by unfold Oidc.Shapes.Text_NewSessionManager; rfl
 theorem text_SessionManager_getSessionOptions_ok : Oidc.Shapes.Text_SessionManager_getSessionOptions := by unfold Oidc.Shapes.Text_SessionManager_getSessionOptions; rfl
 theorem text_SessionData_Save_ok : Oidc.Shapes.Text_SessionData_Save := by unfold Oidc.Shapes.Text_SessionData_Save; rfl
 theorem text_SessionData_deleteStaleChunkCookies_ok : Oidc.Shapes.Text_SessionData_deleteStaleChunkCookies := by unfold Oidc.Shapes.Text_SessionData_deleteStaleChunkCookies; rfl
